@@ -47,8 +47,21 @@ type Case struct {
 	Steps []Step `json:"steps"`
 }
 
+// a closure factory: two values of it have the same text and differ in what they captured
+const prelude = "mkc = c => x => x + c"
+
+// probe: what the constant computes when it is a function (its text alone does not tell closures apart)
+func probe(s *sess.S) string {
+	o, err := s.Obj("catch(" + NAME + "(1))")
+	if err != nil {
+		return "error: " + err.Error()
+	}
+	return o.Inspect()
+}
+
 func evalValue(expr string) (val.V, string, bool) {
 	s := sess.New(sess.Config{})
+	s.Run(prelude)
 	o, err := s.Obj(expr)
 	if err != nil {
 		return val.V{}, "", false
@@ -98,8 +111,13 @@ func check(c Case) error {
 		if !ok {
 			return fmt.Errorf("harness: cannot evaluate initial value %q", c.Init)
 		}
+		s.Run(prelude)
 		if r := s.Run(NAME + " = " + c.Init); r.Failed() {
 			return fmt.Errorf("harness: cannot bind %s = %s: %v", NAME, c.Init, r.Errs)
+		}
+		probe0 := ""
+		if minsp != "" {
+			probe0 = probe(s)
 		}
 		hist := []string{NAME + " = " + c.Init}
 		for _, st := range c.Steps {
@@ -111,6 +129,10 @@ func check(c Case) error {
 					return fmt.Errorf("[%s] del + re-binding failed: %q: %v\nhistory:\n%s", name, st.Src, r.Errs, strings.Join(hist, "\n"))
 				}
 				model, minsp, _ = evalValue(st.Rebind)
+				probe0 = ""
+				if minsp != "" {
+					probe0 = probe(s)
+				}
 			}
 			if st.Prints && !r.Failed() && r.Out != "" {
 				want := printedForm(model, minsp)
@@ -118,6 +140,11 @@ func check(c Case) error {
 					if line != want {
 						return fmt.Errorf("[%s] %q did not fail and printed %s as %q, but the constant is %q\nhistory:\n%s", name, st.Src, NAME, line, want, strings.Join(hist, "\n"))
 					}
+				}
+			}
+			if probe0 != "" {
+				if p := probe(s); p != probe0 {
+					return fmt.Errorf("[%s] after %q: the function constant %s now computes %s for the argument 1, it computed %s\nhistory:\n%s", name, st.Src, NAME, p, probe0, strings.Join(hist, "\n"))
 				}
 			}
 			got, ginsp, err := current(s)
@@ -159,10 +186,10 @@ func mp(n int) string {
 	return "{" + strings.Join(ps, ", ") + "}"
 }
 
-var initPool = []string{"5", "0", "-3", "9223372036854775807", "2.5", `"str"`, `""`, "true", "nil", arr(0), arr(1), arr(3), arr(8), arr(9), arr(10), arr(20),
+var initPool = []string{"0.0", "-0.0", "[0.0, 1]", "mkc(1)", "5", "0", "-3", "9223372036854775807", "2.5", `"str"`, `""`, "true", "nil", arr(0), arr(1), arr(3), arr(8), arr(9), arr(10), arr(20),
 	mp(0), mp(1), mp(4), mp(5), mp(6), mp(20), "x => x + 1", "func(a, b) { a }", "[[1, 2], [3]]", `{"k": [1, 2, 3, 4, 5, 6, 7, 8, 9]}`}
 
-var otherVals = []string{"6", "0", `"other"`, "3.5", "false", "nil", "[9]", arr(9), `{"z": 1}`, mp(6), "x => x"}
+var otherVals = []string{"mkc(2)", "-0.0", "6", "0", `"other"`, "3.5", "false", "nil", "[9]", arr(9), `{"z": 1}`, mp(6), "x => x"}
 
 func isContainer(init string) bool {
 	return strings.HasPrefix(init, "[") || strings.HasPrefix(init, "{")
@@ -174,6 +201,16 @@ func isBig(init string) bool {
 var firstInt = regexp.MustCompile(`(^|[\[ :(-])([0-9]+)($|[\], }])`)
 
 func nearEqual(init string) string {
+	switch init {
+	case "0.0":
+		return "-0.0"
+	case "-0.0":
+		return "0.0"
+	case "[0.0, 1]":
+		return "[-0.0, 1]"
+	case "mkc(1)":
+		return "mkc(2)"
+	}
 	if strings.Contains(init, "=>") || strings.Contains(init, "func") {
 		return init
 	}
